@@ -1219,8 +1219,8 @@ func (ex *Exec) doAssert(c *Term, label string, fr *frame) {
 		st = &assertStat{}
 		ex.asserts[label] = st
 	}
-	st.Reached++
 	if c.IsConst() {
+		st.Reached++
 		if c.val == 1 {
 			st.Discharged++
 			return
@@ -1229,11 +1229,12 @@ func (ex *Exec) doAssert(c *Term, label string, fr *frame) {
 	}
 	pos := len(ex.decisions)
 	if pos < len(ex.prefix) {
-		// already decided on an ancestor path: discharged there
+		// already decided (and counted) on the ancestor path this one was forked from
 		ex.decisions = append(ex.decisions, ex.prefix[pos])
 		ex.addPC(c)
 		return
 	}
+	st.Reached++
 	st.Queries++
 	tq := time.Now()
 	r := ex.checkPC(ex.tc.Not(c))
